@@ -30,11 +30,11 @@ func (li SyncCommitteeSubnetBits) Serialize(spec *common.Spec, w *codec.Encoding
 }
 
 func (li SyncCommitteeSubnetBits) ByteLength(spec *common.Spec) uint64 {
-	return (uint64(spec.SYNC_COMMITTEE_SIZE) + 7) / 8
+	return (uint64(spec.SYNC_COMMITTEE_SIZE)/common.SYNC_COMMITTEE_SUBNET_COUNT + 7) / 8
 }
 
 func (li *SyncCommitteeSubnetBits) FixedLength(spec *common.Spec) uint64 {
-	return (uint64(spec.SYNC_COMMITTEE_SIZE) + 7) / 8
+	return (uint64(spec.SYNC_COMMITTEE_SIZE)/common.SYNC_COMMITTEE_SUBNET_COUNT + 7) / 8
 }
 
 func (li SyncCommitteeSubnetBits) HashTreeRoot(spec *common.Spec, hFn tree.HashFn) common.Root {
